@@ -690,6 +690,13 @@ async fn server_main(sim: Sim, res: Res, lbl: Lbl, ep: Endpoint, n_conns: u32, a
                 loop {
                     l.set("Endpoint::accept()");
                     let Some(inc) = ep2.accept().await else { break };
+                    // address validation by Retry, decided per Incoming
+                    if inc.may_retry() && draw(&s2, "c18.retry", 4) == 3 {
+                        if inc.retry().is_ok() {
+                            s2.with(|s| s.probes.hit("incoming_retried"));
+                        }
+                        continue;
+                    }
                     let ci = addr_to_ci.get(&inc.remote_address()).copied().unwrap_or(999);
                     // (one task per handshake: a stalled one must not hold up the others)
                     let (s3, r3, tx3) = (s2.clone(), r2.clone(), tx2.clone());
@@ -795,6 +802,15 @@ fn run(mut ch: Chooser, ctx: &RunCtx, faults: bool, big: bool) -> RunOut {
         reorder: if faults { *ch.pick("c18.reorder", &[0u32, 100, 300]) } else { 0 },
         would_block: *ch.pick("c18.would_block", &[0u32, 0, 50, 300]),
     };
+    let mut net = net;
+    if plans.iter().any(|p| p.rebind.is_some()) {
+        // (path validation gives up after three probe timeouts computed from the configured
+        // initial RTT: keep the round trip within it, see DESIGN.md §A.4 on the resulting
+        // challenge / response storm)
+        let irtt = ks.initial_rtt_ms.min(kc.initial_rtt_ms) * MS;
+        net.base_delay = net.base_delay.min(irtt / 4);
+        net.jitter = net.jitter.min(irtt / 4);
+    }
     let resp = 2000usize;
     let sim = Sim::new(ch, ctx.log);
     sim.with(|s| s.net = net.clone());
